@@ -9,6 +9,7 @@ import Flumine.DriverRef
 import Flumine.DriverMerge
 import Flumine.DriverDispatch
 import Flumine.DriverLive
+import Flumine.DriverBetdaq
 open Flumine Flumine.Proto
 
 def parseLadder? (s : String) : Option LadderDef :=
@@ -109,6 +110,7 @@ def handle (toks : List String) : String :=
   | "packs" :: _ => (handlePacks toks).getD "bad-op"
   | "live" :: _ => (DriverLive.handle toks).getD "bad-op"
   | "live.calls" :: _ => (DriverLive.handle toks).getD "bad-op"
+  | "bdq" :: _ => (DriverBetdaq.handle toks).getD "bad-op"
   | "dispatch" :: _ => (DriverDispatch.handle toks).getD "bad-op"
   | "dispatch.close" :: _ => (DriverDispatch.handle toks).getD "bad-op"
   | "merge.run" :: _ => (DriverMerge.handle toks).getD "bad-op"
